@@ -16,3 +16,5 @@ pub mod workers {
 
 #[cfg(kani)]
 mod c08;
+#[cfg(kani)]
+mod c03;
